@@ -258,10 +258,10 @@ def shapes(tier):
     out.append(("match_option_value_and_null", lambda: [P(match_opt={60: "value"}, apply={A: "value"}), P(match_opt={60: "null", 77: "value"}, apply={A: "value"}), P(match_opt={77: "null"}, apply={A: "null"})],
                 [A], {60: True}))
     out.append(("match_option_absent_in_request", lambda: [P(match_opt={60: "value"}, apply={A: "value"}), P(match_opt={60: "null"}, apply={B: "value"})], [A, B], {}))
+    out.append(("conditionless_nested_twice", lambda: [P(apply={A: "value"}, children=[P(apply={B: "value"}, children=[P(chaddr=True, apply={A: "value"})]), P(subnet=12)]),
+                                                       P(chaddr=True, apply={A: "null"})], [A, B], {}))
     if tier == "thorough":
         out.append(("depth3", lambda: [P(apply={A: "value"}, children=[P(subnet=24, apply={B: "value"}, children=[P(chaddr=True, apply={A: "null", B: "value"}, address=True), P(match_all=True, apply={A: "value"})]),
                                                                      P(match_all=True, apply={B: "null"})])], [A, B, NETMASK], {}))
-        out.append(("conditionless_nested_twice", lambda: [P(apply={A: "value"}, children=[P(apply={B: "value"}, children=[P(chaddr=True, apply={A: "value"})]), P(subnet=12)]),
-                                                           P(chaddr=True, apply={A: "null"})], [A, B], {}))
         out.append(("width3", lambda: [P(chaddr=True, apply={A: "value"}), P(match_opt={60: "value"}, apply={A: "value"}), P(subnet=30, apply={A: "value"}, address=True)], [A, NETMASK, BROADCAST], {60: True}))
     return out
